@@ -24,6 +24,7 @@ import asyncio
 import random
 import sys
 from ipaddress import IPv4Address, IPv6Address, _BaseAddress
+from operator import attrgetter
 from typing import TYPE_CHECKING, Dict, List, Optional, Set, Union, cast
 
 from .._cache import DNSCache
@@ -77,6 +78,8 @@ from ..const import (
 )
 
 IPADDRESS_SUPPORTS_SCOPE_ID = sys.version_info >= (3, 9, 0)
+
+_RECORD_CREATED_GETTER = attrgetter('created')
 
 _IPVersion_All_value = IPVersion.All.value
 _IPVersion_V4Only_value = IPVersion.V4Only.value
@@ -751,9 +754,18 @@ class ServiceInfo(RecordUpdateListener):
         # last: when that one has expired but an earlier one is still valid, the
         # earlier one counts as a known answer, so the question is never asked and
         # the request would time out without ever learning the server.
-        for cached_srv_record in cache.get_all_by_details(self._name, _TYPE_SRV, _CLASS_IN):
+        #
+        # The record received last wins, which is not always the one added to the
+        # cache last: after an update the old and the new record can both be in the
+        # cache for their whole TTL (the cache flush bit spares records that are less
+        # than a second old) and only the new one keeps being refreshed in place.
+        for cached_srv_record in sorted(
+            cache.get_all_by_details(self._name, _TYPE_SRV, _CLASS_IN), key=_RECORD_CREATED_GETTER
+        ):
             self._process_record_threadsafe(zc, cached_srv_record, now)
-        for cached_txt_record in cache.get_all_by_details(self._name, _TYPE_TXT, _CLASS_IN):
+        for cached_txt_record in sorted(
+            cache.get_all_by_details(self._name, _TYPE_TXT, _CLASS_IN), key=_RECORD_CREATED_GETTER
+        ):
             self._process_record_threadsafe(zc, cached_txt_record, now)
         if original_server_key == self.server_key:
             # If there is a srv which changes the server_key,
